@@ -241,13 +241,16 @@ def call_spec(case, conc, backend):
     return {"op": case["op"], "desc": case["desc"], "args": args, "kwargs": runner.jsonable(kw), "backend": backend}
 
 
-def run_script(path, timeout=120, env=None):
+VENV_PY = os.path.join(runner.ROOT, ".venv", "bin", "python")
+
+
+def run_script(path, timeout=120, env=None, python=None):
     """Returns (reproduced: bool, output text)."""
     e = dict(os.environ)
     e.pop("PYTHONPATH", None)
     if env:
         e.update(env)
-    p = subprocess.run([PY, path], capture_output=True, text=True, timeout=timeout, env=e)
+    p = subprocess.run([python or PY, path], capture_output=True, text=True, timeout=timeout, env=e)
     out = p.stdout + p.stderr
     return ("REPRODUCED" in p.stdout and "NOT-REPRODUCED" not in p.stdout and p.returncode == 1), out
 
